@@ -1,0 +1,17 @@
+//go:build verif
+
+package filesystem
+
+// Contract for LibexecPath (used by property C46). Comment-only file: compiled
+// only under the "verif" build tag, contains no code.
+
+// libexecdir() names the directory LibexecPath computes for the running
+// executable (<prefix>/libexec when the executable is in <prefix>/bin). How
+// it is computed (os.Executable, symbolic link resolution) is trusted, not
+// verified: the property only speaks about the order in which this directory
+// is searched.
+//@ ufunc libexecdir() string
+//@ func LibexecPath
+//@   opaque
+//@   pure
+//@   ensures result1 == nil ==> result0 == libexecdir()
